@@ -12,7 +12,7 @@ sync_harness() {
   mkdir -p "$RIG/verif/harness" "$RIG/verif/replays"
   rsync -a --delete --exclude target /verif/harness/ "$RIG/verif/harness/"
   sed -i "s#/repo/#$RIG/repo/#g" "$RIG/verif/harness/Cargo.toml"
-  printf '[net]\noffline = true\n' > "$RIG/verif/harness/.cargo/config.toml"
+  mkdir -p "$RIG/verif/harness/.cargo"; printf "[net]\noffline = true\n" > "$RIG/verif/harness/.cargo/config.toml"
   cp /verif/known_findings.json "$RIG/verif/"
   rsync -a --delete /verif/replays/known/ "$RIG/verif/replays/known/" 2>/dev/null
   rsync -a --delete /verif/replays/regress/ "$RIG/verif/replays/regress/" 2>/dev/null
